@@ -241,7 +241,7 @@ func (c contractorLog) RenewV2Contract(ts rhp4.TransactionSet, u proto4.Usage) e
 // VerifH_C16_renew: contract renewal on the host: same obligations as
 // formation, plus: the existing contract is marked renewed only on success.
 //
-//verif:harness prop=C16,C09 tier=quick replay=native require=renewed,failed-after-funding bounds="existing contract with 0..2 sectors; 1 renter input, 1..2 host inputs; basis relation, UpdateV2TransactionSet/pool failures and second-round selectors as in VerifH_C16_form (second round: honest / forged renewal signature / forged contract signature / absent); challenge selector"
+//verif:harness prop=C16,C09,C08 tier=quick replay=native require=renewed,failed-after-funding bounds="existing contract with 0..2 sectors; 1 renter input, 1..2 host inputs; basis relation, UpdateV2TransactionSet/pool failures and second-round selectors as in VerifH_C16_form (second round: honest / forged renewal signature / forged contract signature / absent); challenge selector"
 func VerifH_C16_renew() {
 	hostKey, renterKey := keyFromByte(1), keyFromByte(2)
 	tip := types.ChainIndex{Height: 50, ID: types.BlockID{7}}
@@ -357,7 +357,7 @@ func VerifH_C16_renew() {
 // VerifH_C16_refresh: contract refresh on the host (full and partial rollover):
 // same obligations as renewal.
 //
-//verif:harness prop=C16,C09 tier=quick replay=native require=renewed,failed-after-funding bounds="existing contract with 0..2 sectors; full or partial rollover; 1 renter input, 1..2 host inputs; basis relation, UpdateV2TransactionSet/pool failures and second-round selectors as in VerifH_C16_form (second round: honest / forged renewal signature / forged contract signature / absent); challenge selector"
+//verif:harness prop=C16,C09,C08 tier=quick replay=native require=renewed,failed-after-funding bounds="existing contract with 0..2 sectors; full or partial rollover; 1 renter input, 1..2 host inputs; basis relation, UpdateV2TransactionSet/pool failures and second-round selectors as in VerifH_C16_form (second round: honest / forged renewal signature / forged contract signature / absent); challenge selector"
 func VerifH_C16_refresh() {
 	partial := vapi.Bool("partial-rollover")
 	hostKey, renterKey := keyFromByte(1), keyFromByte(2)
